@@ -11,10 +11,13 @@ import (
 )
 
 // C06 — a sandboxed include can never run a filter or function the policy forbids.
-type c06 struct{ base }
+type c06 struct {
+	base
+	afterDisable bool // this case switches the engine-wide sandbox mode off again after EnableSandbox
+}
 
 func init() {
-	Register(&c06{base{
+	Register(&c06{base: base{
 		id: "C06", level: "exploration",
 		technique: "spy monitor: every filter/function is a logging spy; any logged invocation of a name the policy forbids between entry and exit of a sandboxed include is a violation; errors.As(*SecurityViolation) for straight-line uses; position x route x kind x policy grid run exhaustively",
 		rule: "case = (syntactic position of the forbidden name: 22 positions incl. every place of a filter chain, for sequence, apply, arguments, conditions, defaults, literals, set, inner with-hash) x (route from the sandbox boundary: direct, inner include plain/only/with, parent layout, overriding block, parent(), imported macro, from-imported macro, depth 3) x {filter, function} x 4 policies (edited default policy, custom policy, forbidden built-in name, forbidden name equal to a built-in fallback). " +
@@ -259,6 +262,11 @@ func (p *c06) engine(spy *c06Spy, pol twig.SecurityPolicy, forbidName string) fu
 			e.AddFunction(n, mkG(n))
 		}
 		e.EnableSandbox(pol)
+		if p.afterDisable {
+			// the engine-wide sandbox mode is switched off again; the policy stays, and an include that asks for the sandbox
+			// by name is still rendered under it
+			e.DisableSandbox()
+		}
 	}
 }
 
@@ -279,6 +287,10 @@ func (p *c06) Run(rec *core.Recorder, seed uint64, idx int, tier string) {
 	} else {
 		r := core.NewRand("C06", seed, idx)
 		pos, route, kindI, polI, variant = r.Intn(len(c06Positions)), r.Intn(c06Routes), r.Intn(2), r.Intn(6), 2+r.Intn(3)
+	}
+	p.afterDisable = idx >= nGrid && core.Hash64(fmt.Sprint(seed, idx), "disable-after-enable")%4 == 0
+	if p.afterDisable {
+		rec.Count("cases-after-DisableSandbox", 1)
 	}
 	kind := []string{"filter", "function"}[kindI]
 	// forbidden name per policy
@@ -382,7 +394,9 @@ func (p *c06) Run(rec *core.Recorder, seed uint64, idx int, tier string) {
 		}
 	}
 	var sv *twig.SecurityViolation
-	if spyOnly || (route >= 10 && route <= 12) {
+	if spyOnly || (route >= 10 && route <= 12) || p.afterDisable {
+		// (after DisableSandbox: what error an include that asks for the sandbox gets is not stated; the forbidden callable
+		// must not run)
 		// (routes 10-12: whether the sandboxed template can resolve a macro of its includer at all is the engine's business;
 		// what is demanded is that the forbidden callable does not run)
 		rec.Count("spy-only-cases", 1)
